@@ -28,7 +28,16 @@ func corpusDir(prop string) string {
 	return "/verif/corpus/" + prop
 }
 
+// runScenario queues a scenario for execution in a child process (see child.go).
 func runScenario(c *corr.Ctx, sc *Scenario) {
+	if thePool == nil || thePool.c != c {
+		thePool = &pool{c: c}
+	}
+	thePool.enqueue(sc)
+}
+
+// execScenario runs one scenario against the real library (in the child).
+func execScenario(c *rctx, sc *Scenario) {
 	c.Dist("kind=" + sc.Kind)
 	switch sc.Kind {
 	case "unit":
@@ -229,6 +238,13 @@ func genCl(c *corr.Ctx, i int, odd bool) *Scenario {
 		}
 		port := ports[c.Rng.IntN(len(ports))]
 		now += int64(1 + c.Rng.IntN(3))
+		if i%3 == 0 && c.Rng.IntN(8) == 0 { // PAUSE / PLAY around the traffic
+			if c.Rng.IntN(2) == 0 {
+				sc.Ops = append(sc.Ops, Op{K: "cstop"})
+			} else {
+				sc.Ops = append(sc.Ops, Op{K: "cstart", Now: now})
+			}
+		}
 		sc.Ops = append(sc.Ops, Op{K: "cpkt", IP: hexIP(ip), Zone: zones[c.Rng.IntN(len(zones))], Port: port, Len: c.Rng.IntN(1473), Now: now})
 	}
 	return sc
@@ -249,6 +265,7 @@ func Run(c *corr.Ctx) {
 		}
 		sc.Name = "replay"
 		runScenario(c, &sc)
+		thePool.flush()
 		return
 	}
 	// corpus first
@@ -279,6 +296,7 @@ func Run(c *corr.Ctx) {
 		runScenario(c, genCl(c, i, i%5 == 4))
 	}
 	runExt(c)
+	thePool.flush()
 }
 
 // sweepUnit: boundary sweep – every pair of pool addresses (all forms) and every length 0..20.
